@@ -18,7 +18,7 @@ from .common import Sub, Violation, lib
 ID = "C14"
 RULE = ("Hypothesis-generated edit histories (1..30 steps from: item assignment incl. zero, += / -= on items, "
         "cancellation of an existing term, in-place + - * / ** with scalars, dicts and models, update, clear, refresh, "
-        "comparison constraints on PCBO/PCSO, copy / switch-to-copy, observation of to_* forms) on all ten model types, "
+        "comparison constraints on PCBO/PCSO, derived models via subs()/round(), copy / switch-to-copy, observation of to_* forms) on all ten model types, "
         "keys with repeated and unsorted labels. Non-trivial = history contains a zero assignment to a new label, a key with a "
         "repeated label, a cancellation, or a constraint after an in-place product, AND at least one observation of reduced "
         "forms or a refresh. Distinct = distinct spec hash.")
@@ -71,6 +71,7 @@ def _ops(kind, labels):
         st.tuples(st.just("observe")),
     ]
     if kind in ("PCBO", "PCSO"):
+        ops.append(st.tuples(st.just("derive"), st.sampled_from(["subs", "round"])))
         cons = st.tuples(st.just("constraint"), st.sampled_from(RELS), cpoly,
                          st.sampled_from([0.5, 1, 2]), st.booleans())
         ops += [cons, cons, cons]
@@ -362,11 +363,26 @@ def _run(spec, rec, qv):
             used = {l for k in F for l in k if _is_anc(l)}
             reused = used & names_seen
             if reused:
-                raise Violation("ancilla_name_reused/%s" % ("after_product" if after_product else "plain"),
+                how = "after_derive" if flags & {"derived_subs", "derived_round"} else ("after_product" if after_product else "plain")
+                raise Violation("ancilla_name_reused/%s" % how,
                                 "constraint %s reuses %r (seen before: %r); model=%r" % (rel, sorted(reused), sorted(names_seen), dict(M)))
             if after_product:
                 flags.add("constraint_after_product")
             classes.add("constraint")
+        elif name == "derive":
+            # a derived model (subs without symbols / round to 6 digits: both keep every dyadic coefficient)
+            # still contains the ancillas, so it has to keep counting from where the original stopped
+            before = ref.canon(dict(M), spin)
+            if op[1] == "subs":
+                D = lib(M.subs, {}, what="subs")
+            else:
+                D = lib(round, M, 6, what="round")
+            if type(D) is not type(M):
+                raise Violation("derive_type/%s" % op[1], "%s -> %s" % (type(M).__name__, type(D).__name__))
+            if op[1] == "subs" and ref.canon(dict(D), spin) != before:   # rounding may legitimately change values
+                raise Violation("derive_changed_function/%s" % op[1], "%r -> %r" % (before, dict(D)))
+            M = D
+            flags.add("derived_" + op[1])
         elif name == "observe":
             check_bookkeeping(M, kind, "pre-observe")
             observe(M, kind, rec)
@@ -402,7 +418,8 @@ def _run(spec, rec, qv):
             raise Violation("probe_constraint_without_ancilla", "F=%r" % (F,))
         reused = used & names_seen
         if reused:
-            raise Violation("ancilla_name_reused/%s" % ("after_product" if after_product else "plain"),
+            how = "after_derive" if flags & {"derived_subs", "derived_round"} else ("after_product" if after_product else "plain")
+            raise Violation("ancilla_name_reused/%s" % how,
                             "probe constraint reuses %r (seen before: %r); num_ancillas=%r model=%r" %
                             (sorted(reused), sorted(names_seen), M.num_ancillas, dict(M)))
         check_bookkeeping(M, kind, "probe_constraint")
